@@ -37,7 +37,7 @@
     * export mds: `C15_mds_export_no_ub` — for EVERY input the converter model never returns
       `FErr.riff`, `FErr.codec .atEmpty`, `FErr.bankIndex` nor `FErr.writer (.player .impossible)`;
       `FErr.headerWrap` and `FErr.codec .stackEmpty` are `InputError`s of the C++ since repository
-      fixes 8d409a9 / c5dd456 (both were reachable); `C15_mds_export_routed`;
+      fixes 5952bf5 / 3e0ed67 (both were reachable); `C15_mds_export_routed`;
   What is still a HYPOTHESIS of the composition (`StageHyps`, Proofs/PipelineStages), stage by stage:
     * optimise   nothing on `OptDomain`; outside it (a parsed song with 32767 or more events in a
                  track, track ids from 32767, or so many events that `sub_id` could reach 32767 —
@@ -235,7 +235,7 @@ theorem C15_mds_export_routed (u : Residual) (hg : ∀ inp, (u.mdsGap inp).route
 
 /-- an input that reached one of the converter's other undefined-behaviour constructors before the
 repairs: a raw `cmd` loop end outside a loop (was `top()` of an empty stack: SIGSEGV), now the input
-error of fix c5dd456 — in the codec model -/
+error of fix 3e0ed67 — in the codec model -/
 example : (match Mds.convertTrack 0 0 [⟨Tables.mds_LPF, 2⟩, ⟨Tables.mds_NOTE + 36, 24⟩] with
       | .error .stackEmpty => true | _ => false) = true ∧
     clsOf (ferrOut (α := Bytes) { song := { tracks := [] } } (fun _ => .ok []) (.codec .stackEmpty)) = 1 ∧
